@@ -217,7 +217,7 @@ UNITS["membership"] = {
     "harness_mod": "watch::verif_contracts",
     "kani_flags": [],
     "env": {"VCOLL_CAP": "3", "VCOLL_VCAP": "3"},
-    "max_jobs": 8,  # one kani-driver process per unit: 16 concurrent harness threads exhausted its address-space limit
+    "batch": 8, "max_jobs": 8,  # per kani-driver process (it parses every harness's CBMC output in memory: 16 at a time, or > 20 in a row, exhausted its 20 GB address-space limit)
     "sources": ["datacake-node/src/lib.rs", "datacake-node/src/node.rs"],
     "slice": [
         {"mode": "items", "src": "datacake-node/src/node.rs", "out": "node_types.rs",
@@ -245,7 +245,8 @@ UNITS["selector"] = {
     "crate": "harness/selector",
     "harness_mod": "selector::verif_contracts",
     "kani_flags": [],
-    "env": {"VCOLL_CAP": "2", "VCOLL_VCAP": "4"},
+    "env": {"VCOLL_CAP": "3", "VCOLL_VCAP": "9"},
+    "batch": 16,
     "sources": ["datacake-node/src/nodes_selector.rs"],
     "slice": [{
         "mode": "items", "src": "datacake-node/src/nodes_selector.rs", "out": "selector.rs",
@@ -263,12 +264,19 @@ UNITS["selector"] = {
             {"kind": "impl", "name": "NodeCycler", "header": r"impl NodeCycler\s*\{"},
             {"kind": "impl", "name": "From<Nodes> for NodeCycler", "header": r"impl From<Nodes> for NodeCycler\s*\{"},
             {"kind": "impl", "name": "Iterator for NodeCycler", "header": r"impl Iterator for NodeCycler\s*\{"},
+            {"kind": "block", "name": "Op::SetNodes arm of the actor loop in start_node_selector",
+             "anchor": r"Op::SetNodes\s*\{\s*data_centers:\s*new_data_centers,?\s*\}\s*=>",
+             "wrap_head": "/// hand-written wrapper around the VERBATIM `Op::SetNodes` arm of the actor loop in start_node_selector: the variables the arm uses are parameters, their final values are returned\n"
+                          "#[allow(unused_assignments, unused_mut, unused_variables)]\n"
+                          "pub fn set_nodes_arm(new_data_centers: BTreeMap<Cow<'static, str>, Nodes>, mut data_centers: BTreeMap<Cow<'static, str>, NodeCycler>, mut total_nodes: usize, "
+                          "mut cached_nodes: crate::env::CacheStub) -> (BTreeMap<Cow<'static, str>, NodeCycler>, usize, crate::env::CacheStub) {",
+             "wrap_tail": "    (data_centers, total_nodes, cached_nodes)\n}"},
         ],
         "append": ['#[cfg(kani)] #[path = "/verif/harness/selector/src/contracts.rs"] mod verif_contracts;'],
     }],
     "extraction": "items Nodes, ConsistencyError, Consistency, NodeSelector, DCAwareSelector (+ impl NodeSelector), select_n_nodes, NodeCycler (+ impls) cut verbatim from nodes_selector.rs; "
                   "dropped attribute: #[instrument(..)] on select_n_nodes",
-    "functions": ["DCAwareSelector::select_nodes", "select_n_nodes", "NodeCycler::next", "NodeCycler::from"],
+    "functions": ["DCAwareSelector::select_nodes", "select_n_nodes", "NodeCycler::next", "NodeCycler::from", "start_node_selector (the Op::SetNodes arm of its actor loop)"],
     "assumptions": [
         "rand::thread_rng / IteratorRandom::choose_multiple -> an ARBITRARY sub-selection of the requested size in iteration order (which elements are chosen is nondeterministic; their relative order is not permuted)",
         "SmallVec<[SocketAddr; 5]> / Vec -> vcoll::VVec; BTreeMap -> vcoll concrete map; SocketAddr -> opaque identifier; data-centre names are real Cow::Borrowed(&'static str) (no heap strings); tracing macros are no-ops",
@@ -587,6 +595,10 @@ _k("gr_binding_preserved", "group", "P", "KeyspaceGroup::get_or_create_keyspace 
 _MB_PREVS = ((0, 0), (1, 0), (0, 1), (1, 2))
 _MB_CURS = tuple((a, b) for a in range(4) for b in range(4) if not (a != 0 and a == b))
 MB_STEPS = [f"mb_step_{a}{b}_{c}{d}" for (a, b) in _MB_PREVS for (c, d) in _MB_CURS]
+# quick tier: 15 transitions (+ the D6 obligation = 16 harnesses = one batch, one wave on 16 cores): joins, leaves, address change, swap, take-over by the
+# other id, both leave, both arrive; `vp check` stops a quick command after 900 s (the full list took 670 s on a busy machine). Thorough: all 52.
+_MB_QUICK = {"mb_step_00_12", "mb_step_10_00", "mb_step_10_10", "mb_step_10_20", "mb_step_10_02", "mb_step_10_01", "mb_step_10_12", "mb_step_10_21",
+             "mb_step_12_00", "mb_step_12_10", "mb_step_12_02", "mb_step_12_21", "mb_step_12_13", "mb_step_12_23", "mb_step_12_30"}
 for _n in MB_STEPS:
     _k(_n, "membership", "B", "watch_membership_changes",
        f"two consecutive snapshots over ids {{self,1,2}}; address of node 1 / node 2 (0 = absent, 1..3 = shared address pool) in the previous / current snapshot = {_n[8:10]} / {_n[11:13]} "
@@ -594,11 +606,35 @@ for _n in MB_STEPS:
        "inductive step: joined/left exact (left as members of the PREVIOUS snapshot with the address they had); consumer fold == others(cur); departed unused addresses disconnected, "
        "nothing else; set_nodes gets exactly cur's DC layout",
        bound="2 snapshots x 3 ids (self + two other nodes) x 3 addresses x 2 DCs; who is where is concrete per harness (4 canonical previous x 13 current assignments = 52 transitions, all registered)",
-       tier="quick" if (_n[8:10] in ("10", "12") or _n in ("mb_step_00_00", "mb_step_00_10", "mb_step_00_12")) else "thorough")
+       tier="quick" if _n in _MB_QUICK else "thorough")
 
 _k("mb_slow_subscriber", "membership", "B", "watch_membership_changes + the latest-value delta channel",
    "concrete history: node 1 joins, a second (unchanged) snapshot is processed before the subscriber reads: the subscriber, handed the latest delta only, must still hold node 1 -- "
    "FAILS on the pinned tree (defect D6, known finding: deltas on a latest-value channel)", bound="one concrete history")
+
+# ---- unit selector (C15)
+import itertools as _it
+SEL_SHAPES = []
+for _nd in (1, 2, 3):
+    for _sz in _it.product((1, 2, 3), repeat=_nd):
+        _full = list(_sz) + [0] * (3 - _nd)
+        for _dc in range(_nd):
+            for _idx in range(_sz[_dc]):
+                SEL_SHAPES.append((f"sel_{_full[0]}{_full[1]}{_full[2]}_{_dc}{_idx}", _nd, sum(_sz)))
+# three data centres: every shape tried (111, 211, 222, 321, 333) ran out of memory (the random choice of data centres makes the vector of (&name, &mut cycler) pairs symbolic);
+# they stay in the harness file, registered but NOT part of the property. quick tier: shapes with <= 2 data centres and <= 4 nodes (26); thorough: all 42 two-DC shapes
+_SEL_QUICK = {n for (n, nd, t) in SEL_SHAPES if nd <= 2 and t <= 4}
+for _n, _nd, _t in SEL_SHAPES:
+    _k(_n, "selector", "B", "DCAwareSelector::select_nodes / select_n_nodes / NodeCycler",
+       f"layout with data-centre sizes {_n[4:7]} (0 = no such data centre), local node = node {_n[9]} of data centre {_n[8]}; EVERY consistency level, EVERY cursor vector (0..=len per data centre = "
+       "whatever selections were made before), every outcome of the random data-centre choice: Ok => only current members other than the local node, no duplicates, >= the number the level "
+       "requires (exactly n for One/Two/Three, everybody else for All, per-DC majorities for EachQuorum); NotEnoughNodes only when fewer other nodes exist than required; cursors stay in 0..=len",
+       bound="<= 3 data centres x <= 3 nodes; shape concrete per harness (all 204 shapes registered)", tier="quick" if _n in _SEL_QUICK else "thorough")
+for _i, _d in enumerate(("the empty update", "a only (b left)", "b and c (a left, c arrived)", "a and b with other nodes", "c only (both old data centres left)")):
+    _k(f"sel_set_nodes_{_i}", "selector", "B", "start_node_selector: the Op::SetNodes arm of the actor loop",
+       "old layout {a: 2 nodes, b: 1 node} with arbitrary cursors, update = " + _d + ": afterwards the layout is EXACTLY the update -- a data centre that is not in it is gone (never selected "
+       "again), listed data centres hold exactly the listed nodes with cursor 0, total == sum, selection cache emptied", bound="one old layout, one concrete update")
+SEL_ALL = [n for (n, nd, _b) in SEL_SHAPES if nd <= 2] + [f"sel_set_nodes_{i}" for i in range(5)]
 
 # ---- unit poller_glue (C05: repair glue)
 _k("pg_handle_removals", "poller_glue", "B", "handle_removals (poller.rs)",
@@ -711,6 +747,14 @@ PROPERTIES = {
         "explanation": "bounded contract checking (class B): the delta function of watch_membership_changes for one transition from an ARBITRARY previous snapshot "
                        "(self + two other nodes x 3 shared addresses x 2 data centres; who is present at which address is concrete per harness -- 52 transitions, previous snapshot canonical up to renaming of addresses -- data centres symbolic; an inductive step over snapshot histories inside that size) plus the unbounded Verus fold lemma "
                        "(a consumer applying every event holds the last snapshot)",
+        "assumptions": [],
+    },
+    "C15": {
+        "obligations": SEL_ALL,
+        "level": "other",
+        "explanation": "bounded contract checking (class B) of DCAwareSelector::select_nodes, select_n_nodes and NodeCycler sliced from nodes_selector.rs: for every layout shape with <= 3 data "
+                       "centres x <= 3 nodes and every choice of the local node (204 shapes, concrete per harness), EVERY consistency level, EVERY cursor vector (= every history of earlier "
+                       "selections, an inductive step: the cursors left behind are again in the range the contract starts from) and every outcome of the random data-centre choice",
         "assumptions": [],
     },
     "C18": {
